@@ -199,9 +199,12 @@ func TestZeroDim(t *testing.T) {
 	}
 }
 
-// TestEmitReplays writes one minimal replay file per known finding into
-// VERIF_C03_REPLAY_DIR (development; the files are committed under
-// /verif/replays/C03).
+// TestEmitReplays writes one replay file per STILL-KNOWN finding into
+// VERIF_C03_REPLAY_DIR (development; the files live under /verif/replays/C03).
+// Each costs ~80 s of CPU to reproduce (20 s + 60 s watchdogs), which is why
+// they are not regression replays.  The replays of the fixed findings are the
+// static files under /verif/regress/C03 (recipe indices: the template tables
+// in source_test.go are append-only).
 func TestEmitReplays(t *testing.T) {
 	dir := os.Getenv("VERIF_C03_REPLAY_DIR")
 	if dir == "" {
@@ -216,48 +219,13 @@ func TestEmitReplays(t *testing.T) {
 		t.Fatalf("no op %q", src)
 		return -1
 	}
-	idx := func(list []string, sub string) int {
-		for i, s := range list {
-			if strings.Contains(s, sub) {
-				return i
-			}
-		}
-		t.Fatalf("no entry containing %q", sub)
-		return -1
-	}
-	listCycle := idx(cyclicBuilders, "(set 'd (slice 'list v 0 2)) (elpspath:?set! v 0 d)")
-	emit := func(name, sub string, c any, key string) {
-		b, _ := json.MarshalIndent(journalRec{Property: "C03", Sub: sub, Key: key, Msg: "known finding, see harness/c03/NOTES.md", Case: c}, "", " ")
-		if err := os.WriteFile(dir+"/known-"+name+".json", append(b, '\n'), 0o644); err != nil {
+	for fam, op := range map[string]string{"print": "(debug-print d)", "equal": "(equal? d d2)", "json": "(json:dump-string d)",
+		"elpspath": "(elpspath:? d '* '* '*)", "quasiquote": "(eval (list (car '(quasiquote)) d))",
+		"stamp": "(eval (list (car '(defmacro)) (car '(c03m)) () (list (car '(quote)) (list (car '(quote)) d)))) (c03m)"} {
+		r := Recipe{T: "dag", V: 0, M: 40, W: opIdx(op)}
+		b, _ := json.MarshalIndent(journalRec{Property: "C03", Sub: "source-bytes", Key: "wedge/dag/" + fam, Msg: "known finding, see harness/c03/NOTES.md", Case: Src{Class: "hostile", R: &r}}, "", " ")
+		if err := os.WriteFile(dir+"/known-dag-"+fam+".json", append(b, '\n'), 0o644); err != nil {
 			t.Fatal(err)
 		}
 	}
-	src := func(r Recipe) Src { return Src{Class: "hostile", R: &r} }
-	emit("copy-self-containing-list", "source-bytes", src(Recipe{T: "cyclic", V: listCycle, W: opIdx("(stable-sort < (vector d d2) (lambda (x) 0))")}), "death/stack-overflow/cyclic-list/copy")
-	emit("copy-handler-bind", "source-bytes", src(Recipe{T: "cyclic", V: listCycle, W: opIdx("(handler-bind ((boom (lambda (c &rest a) 1))) (error 'boom d))")}), "death/stack-overflow/cyclic-list/copy")
-	emit("export-self-containing-list", "source-bytes", src(Recipe{T: "cyclic", V: listCycle, W: opIdx("(export d)")}), "death/stack-overflow/cyclic-list/export")
-	emit("quasiquote-self-containing-list", "source-bytes", src(Recipe{T: "cyclic", V: listCycle, W: opIdx("(eval (list (car '(quasiquote)) d))")}), "death/stack-overflow/cyclic-list/quasiquote")
-	for fam, op := range map[string]string{"print": "(debug-print d)", "equal": "(equal? d d2)", "json": "(json:dump-string d)",
-		"elpspath": "(elpspath:? d '* '* '*)", "copy": "(stable-sort < (vector d d2) (lambda (x) 0))", "export": "(export d)", "quasiquote": "(eval (list (car '(quasiquote)) d))"} {
-		emit("dag-"+fam, "source-bytes", src(Recipe{T: "dag", V: 0, M: 40, W: opIdx(op)}), "wedge/dag/"+fam)
-	}
-	for g, sub := range map[string]string{"format-string": "(set 's (format-string", "append-bytes": "(set 'b (append-bytes b b)", "string:join": "(set 's (string:join"} {
-		emit("grow-by-"+strings.ReplaceAll(g, ":", "-"), "source-bytes", src(Recipe{T: "huge", N: 40, V: idx(hugePrograms, sub)}), "death/memory-blowup/huge/grow-by/"+g)
-	}
-	nilRe := VD{K: "native", I: 11}
-	emit("regexp-pattern-typed-nil", "apply-registry", Apply{Pkg: "regexp", Name: "regexp-pattern", Via: "eval", Args: []VD{nilRe}}, "panic/regexp:regexp-pattern/nil-pointer-dereference@libregexp.BuiltinPattern")
-	emit("regexp-match-typed-nil", "apply-registry", Apply{Pkg: "regexp", Name: "regexp-match?", Via: "eval", Args: []VD{nilRe, {K: "str", S: []byte("a")}}}, "panic/regexp:regexp-match?/nil-pointer-dereference@libregexp.BuiltinIsMatch")
-	badTd := VD{K: "tagged", S: []byte("lisp:typedef"), L: []VD{{K: "true"}}}
-	emit("new-malformed-typedef", "apply-registry", Apply{Pkg: "lisp", Name: "new", Via: "eval", Args: []VD{badTd}}, "panic/lisp:new/index-out-of-range@lisp.(*LEnv).New")
-	emit("type-malformed-typedef", "apply-registry", Apply{Pkg: "lisp", Name: "type?", Via: "eval", Args: []VD{badTd, {K: "int", I: 1}}}, "panic/lisp:type?/index-out-of-range@lisp.builtinIsType")
-	emit("make-validator-malformed-typedef", "apply-registry", Apply{Pkg: "s", Name: "make-validator", Via: "eval", Args: []VD{badTd, {K: "str", S: []byte("string")}}}, "panic/s:make-validator/index-out-of-range@libschema.builtinMakeValidator")
-	zd := VD{K: "array", D: []int{}}
-	emit("elpspath-del-zero-dim", "apply-registry", Apply{Pkg: "elpspath", Name: "?del!", Via: "eval", Args: []VD{zd, {K: "int", I: 0}}}, "panic/elpspath:?del!/index-out-of-range@libelpspath.storeCells")
-	rng := VD{K: "list", L: []VD{{K: "sym", S: []byte("range")}, {K: "int", I: 0}, {K: "int", I: 0}}}
-	emit("elpspath-nil-zero-dim", "apply-registry", Apply{Pkg: "elpspath", Name: "?nil!", Via: "eval", Args: []VD{zd, rng}}, "panic/elpspath:?nil!/index-out-of-range@libelpspath.storeCells")
-	emit("elpspath-set-zero-dim", "apply-registry", Apply{Pkg: "elpspath", Name: "?set!", Via: "eval", Args: []VD{zd, rng, {K: "vector", L: []VD{{K: "int", I: 1}}}}}, "panic/elpspath:?set!/index-out-of-range@libelpspath.storeCells")
-	selfList := VD{K: "list", ID: 1, L: []VD{{K: "int", I: 1}, {K: "ref", ID: 1}}}
-	emit("apply-quasiquote-self-containing-list", "apply-registry", Apply{Pkg: "lisp", Name: "quasiquote", Via: "direct", Args: []VD{{K: "sexpr", ID: 1, L: []VD{{K: "sym", S: []byte("f")}, {K: "ref", ID: 1}}}}}, "death/stack-overflow/quasiquote/apply")
-	emit("apply-export-self-containing-list", "apply-registry", Apply{Pkg: "lisp", Name: "export", Via: "direct", Args: []VD{{K: "list", ID: 1, L: []VD{{K: "sym", S: []byte("x")}, {K: "ref", ID: 1}}}}}, "death/stack-overflow/export/apply")
-	emit("apply-stable-sort-self-containing-list", "apply-registry", Apply{Pkg: "lisp", Name: "stable-sort", Via: "direct", Args: []VD{{K: "fun", I: 12}, {K: "vector", L: []VD{selfList, {K: "int", I: 2}}}, {K: "fun", I: 13}}}, "death/stack-overflow/copy/apply")
 }
